@@ -66,7 +66,9 @@ fn build_rig(rng: &mut Rng, case_no: u64, n_frames: usize, big: bool) -> Rig {
     let thread = format!("00000000-0000-4000-8000-{:012x}", case_no + 1);
     let mut seq = 0u64;
     let mut push = |kind: EventKind, seq: &mut u64| -> String {
-        let id = format!("f-{case_no}-{}", *seq);
+        // UUID-shaped ids: the message seek indexes key on the parsed UUID, any other id shape
+        // silently disables the windowed read paths
+        let id = format!("{:08x}-0000-4000-8000-{:012x}", case_no as u32, *seq);
         log.append(&ev(&thread, *seq, id.clone(), kind)).unwrap();
         *seq += 1;
         id
@@ -252,7 +254,13 @@ fn cache_files(data_dir: &Path, thread: &str) -> Vec<PathBuf> {
 }
 
 fn one_case(rep: &mut Report, model: &mut Model, rng: &mut Rng, case_no: u64, big: bool, strict: bool) {
-    let n_frames = if big { rng.range(90, 220) as usize } else { rng.range(3, 70) as usize };
+    one_case_sized(rep, model, rng, case_no, big, false, strict)
+}
+
+/// `long`: threads of several hundred frames, so that seek indexes have more than one entry and
+/// the last messages straddle an index stride
+fn one_case_sized(rep: &mut Report, model: &mut Model, rng: &mut Rng, case_no: u64, big: bool, long: bool, strict: bool) {
+    let n_frames = if long { rng.range(190, 520) as usize } else if big { rng.range(90, 220) as usize } else { rng.range(3, 70) as usize };
     let rig = build_rig(rng, case_no, n_frames, big);
     let mut names = Names { map: BTreeMap::new() };
     let frames = read_frames(&rig.data_dir.join("events.jsonl"));
@@ -271,7 +279,7 @@ fn one_case(rep: &mut Report, model: &mut Model, rng: &mut Rng, case_no: u64, bi
     }
     anchors.dedup();
     rep.evaluations += 1;
-    rep.count(if big { "big_histories" } else { "histories" });
+    rep.count(if long { "long_histories" } else if big { "big_histories" } else { "histories" });
     rep.count_n("frames", frames.len() as u64);
     for anchor in &anchors {
         let line = model_line(&rig, anchor, &mut names, strict);
@@ -293,6 +301,39 @@ fn one_case(rep: &mut Report, model: &mut Model, rng: &mut Rng, case_no: u64, bi
             }
         }
         results.push(("some cache files removed", compile_real(&rig, anchor, &mut names)));
+        // (E) the messages+runs sidecar present but damaged at its end (a torn or garbage last line):
+        // the reader has to leave the fast paths for the bounded read over the full sidecar
+        {
+            let _ = std::fs::remove_dir_all(rig.data_dir.join("continuity_streams"));
+            let _ = compile_real(&rig, anchor, &mut names);
+            let mr = rig.data_dir.join("continuity_streams").join(format!("{}.mr.v1.jsonl", rig.thread));
+            if let Ok(mut bytes) = std::fs::read(&mr) {
+                let how = match rng.below(3) {
+                    0 => {
+                        bytes.extend_from_slice(b"{\"id\":\"torn-fragment\",\"sess");
+                        "torn fragment appended"
+                    }
+                    1 => {
+                        bytes.extend_from_slice(b"this is not a frame\n");
+                        "garbage line appended"
+                    }
+                    _ => {
+                        let cut = rng.range(1, 30) as usize;
+                        let keep = bytes.len().saturating_sub(cut);
+                        // never on a line boundary: that is a well-formed prefix, a different fault class
+                        if keep > 0 && bytes[keep - 1] != b'\n' {
+                            bytes.truncate(keep);
+                        } else {
+                            bytes.extend_from_slice(b"{\"to");
+                        }
+                        "last line torn"
+                    }
+                };
+                std::fs::write(&mr, &bytes).unwrap();
+                rep.count(&format!("mr_sidecar_damaged_{}", how.replace(' ', "_")));
+                results.push(("messages+runs sidecar damaged at its end", compile_real(&rig, anchor, &mut names)));
+            }
+        }
         rep.traces_validated += results.len() as u64;
         for (what, r) in &results {
             if r.contains("INCONSISTENT") {
@@ -398,6 +439,13 @@ pub fn run(opts: &Opts) -> Report {
     );
     let mut rng = Rng::new(opts.seed);
     let mut model = Model::spawn();
+    // which internal read path produced each compile input (markers in the code under test)
+    static PATHS: std::sync::Mutex<BTreeMap<String, u64>> = std::sync::Mutex::new(BTreeMap::new());
+    rip_kernel::verif::install(Some(std::sync::Arc::new(|name: &str| {
+        if name.starts_with("path.") {
+            *PATHS.lock().unwrap().entry(name.to_string()).or_insert(0) += 1;
+        }
+    })));
     // the model runs with the semantics of the code as it is (a late checkpoint is eligible); the
     // repaired semantics (strictCut) is the subject of a theorem, not of this run
     let strict = std::env::var("C08_MODEL_STRICT_CUT").map(|v| v == "1").unwrap_or(false);
@@ -405,9 +453,17 @@ pub fn run(opts: &Opts) -> Report {
     for case_no in 0..n {
         one_case(&mut rep, &mut model, &mut rng, case_no, false, strict);
     }
+    let nl = if opts.thorough { 150 } else { 16 } * opts.scale;
+    for case_no in 0..nl {
+        one_case_sized(&mut rep, &mut model, &mut rng, 2_000_000 + case_no, false, true, strict);
+    }
     let nb = if opts.thorough { 60 } else { 8 } * opts.scale;
     for case_no in 0..nb {
         one_case(&mut rep, &mut model, &mut rng, 1_000_000 + case_no, true, strict);
+    }
+    rip_kernel::verif::install(None);
+    for (k, v) in PATHS.lock().unwrap().iter() {
+        rep.count_n(&format!("read_{}", k.replace('.', "_")), *v);
     }
     rep
 }
